@@ -32,8 +32,8 @@ ASSUMPTIONS = [
     "the cleaning filter is the element-wise maximum over the extra baselines of the reduced difference to the first baseline, floored at 0",
 ]
 FLOORS = {
-    "quick": {"cleaning_filter_learnt_again": 70, "restoration_is_configured_method": 30, "earlier_result_intact": 300, "probe_object_reused_with_new_content": 60, "baseline_list_untouched": 350, "second_analysis_from_same_baselines": 100, "trace_automaton": 350, "result_is_composition": 220, "baseline_maps_to_zero": 250, "probe_unchanged": 350, "diff_option_identities": 60},
-    "thorough": {"cleaning_filter_learnt_again": 700, "restoration_is_configured_method": 300, "earlier_result_intact": 3000, "probe_object_reused_with_new_content": 600, "baseline_list_untouched": 3500, "second_analysis_from_same_baselines": 1000, "trace_automaton": 3500, "result_is_composition": 2200, "baseline_maps_to_zero": 2500, "probe_unchanged": 3500, "diff_option_identities": 600},
+    "quick": {"callers_baseline_overwritten_after_construction": 100, "analysis_without_baseline": 20, "cleaning_filter_learnt_again": 70, "restoration_is_configured_method": 30, "earlier_result_intact": 300, "probe_object_reused_with_new_content": 60, "baseline_list_untouched": 350, "second_analysis_from_same_baselines": 100, "trace_automaton": 350, "result_is_composition": 220, "baseline_maps_to_zero": 250, "probe_unchanged": 350, "diff_option_identities": 60},
+    "thorough": {"callers_baseline_overwritten_after_construction": 1000, "analysis_without_baseline": 200, "cleaning_filter_learnt_again": 700, "restoration_is_configured_method": 300, "earlier_result_intact": 3000, "probe_object_reused_with_new_content": 600, "baseline_list_untouched": 3500, "second_analysis_from_same_baselines": 1000, "trace_automaton": 3500, "result_is_composition": 2200, "baseline_maps_to_zero": 2500, "probe_unchanged": 3500, "diff_option_identities": 600},
 }
 DIFFS = ["absolute", "positive", "negative", "plain"]
 
@@ -232,6 +232,14 @@ def run_shard(spec, R):
         md_ok &= isinstance(out, darsia.ScalarImage) if reduced else (type(out) is type(probe))
         R.check(bool(md_ok), "result_carries_probe_metadata", lambda: {**cfg, "type": type(out).__name__, "out_ndim": out.img.ndim})
 
+        # the caller goes on using his baseline image object after the analysis has been built (every third case
+        # overwrites it in place): the analysis keeps the baseline it was built with
+        if it["id"] % 3 == 2:
+            if np.issubdtype(bases[0].img.dtype, np.floating):
+                bases[0].img *= 0.5
+            else:
+                bases[0].img //= 2
+            R.count("callers_baseline_overwritten_after_construction")
         # ---------------------------------------------------- baseline -> zero
         if not offset_bal:
             del trace[:]
@@ -289,6 +297,19 @@ def run_shard(spec, R):
                 okd, od = R.guarded("call", lambda: c2(image(probe_arr.copy())))
                 if okd:
                     outs[d] = np.asarray(od.img, float)
+            # without any baseline the probe itself is the difference (integer probes promoted like everywhere else)
+            outs0 = {}
+            for d in DIFFS:
+                c0 = darsia.ConcentrationAnalysis(None, None, None, None, None, None, **{"diff option": d})
+                ok0, o0 = R.guarded("call", lambda: c0(image(probe_arr.copy())))
+                if ok0:
+                    outs0[d] = np.asarray(o0.img, float)
+            if len(outs0) == 4:
+                pf = fl(probe_arr).astype(float)
+                R.check(bool(np.allclose(outs0["plain"], pf, atol=1e-6, rtol=0)) and bool(np.allclose(outs0["positive"], np.clip(pf, 0, None), atol=1e-6, rtol=0))
+                        and bool(np.allclose(outs0["negative"], np.clip(-pf, 0, None), atol=1e-6, rtol=0)) and bool(np.allclose(outs0["absolute"], np.abs(pf), atol=1e-6, rtol=0)),
+                        "diff_option_identities", lambda: {**cfg, "what": "analysis without a baseline", "max_plain": float(np.max(outs0["plain"])), "max_negative": float(np.max(outs0["negative"]))}, group="no_baseline")
+                R.count("analysis_without_baseline")
             if len(outs) == 4:
                 R.check(bool(np.allclose(outs["positive"] + outs["negative"], outs["absolute"], atol=1e-6, rtol=0)) and bool(np.allclose(outs["positive"] - outs["negative"], outs["plain"], atol=1e-6, rtol=0))
                         and bool(np.all(outs["positive"] >= 0)) and bool(np.all(outs["negative"] >= 0)), "diff_option_identities", cfg)
